@@ -1431,6 +1431,9 @@ class aarch64_imm_hw(aarch64_arg):
 
     def decode(self, v):
         size = 64 if self.parent.sf.value else 32
+        if 16 * self.parent.hw.value >= size:
+            # 32-bit variant: hw<1> must be 0
+            return False
         self.expr = m2_expr.ExprInt(v << (16 * self.parent.hw.value), size)
         return True
 
@@ -1457,6 +1460,9 @@ class aarch64_imm_hw_sc(aarch64_arg):
 
     def decode(self, v):
         size = 64 if self.parent.sf.value else 32
+        if 16 * self.parent.hw.value >= size:
+            # 32-bit variant: hw<1> must be 0
+            return False
         expr = m2_expr.ExprInt(v, size)
         amount = m2_expr.ExprInt(16 * self.parent.hw.value, size)
         if self.parent.hw.value:
